@@ -396,8 +396,12 @@ def judge_churn(scn):
     image2 = len(rec2).to_bytes(4, "big") + rec2 + b"\x00\x00\x00\x00"
     fails = []
     n = scn["churn"]["iterations"]
+    one = _copy.deepcopy(pk)             # ONE caller-owned configuration edited in place between readers
     for it in range(n):
-        cfg_it = _copy.deepcopy(pk)
+        same_object = it >= n // 2
+        cfg_it = one if same_object else _copy.deepcopy(pk)
+        if same_object and str(xb) not in cfg_it:
+            cfg_it[str(xb)] = _copy.deepcopy(pk[str(xb)])
         if it % 2:
             del cfg_it[str(xb)]          # this configuration does not know bit xb
         out = decode.run_reader(image2, "IpmReader", False, enc=enc, cfg=cfg_it)
@@ -409,7 +413,8 @@ def judge_churn(scn):
                                     f"bit {xb}: a record flagging bit {xb} gave {out.kind} ({len(out.items)} records delivered)",
                           "sig": "C10.config_churn|" + ("unknown_bit_not_reported" if want_error else "known_bit_refused"),
                           "scenario": scn})
-        del cfg_it
+        if not same_object:
+            del cfg_it
     return fails, n
 
 
